@@ -73,7 +73,9 @@ pub fn explore_all(run: &Run) -> (Stats, Vec<(u64, u64)>) {
 
 pub fn worker(out_prefix: &str) -> i32 {
     let run = Run::new("C15", "model_checking");
-    let (st, digests) = explore_all(&run);
+    let (st, mut digests) = explore_all(&run);
+    digests.sort();
+    digests.dedup_by_key(|d| d.0);
     let mut bin = Vec::with_capacity(digests.len() * 16);
     for (a, b) in &digests {
         bin.extend_from_slice(&a.to_le_bytes());
@@ -88,12 +90,45 @@ pub fn worker(out_prefix: &str) -> i32 {
 }
 
 pub fn c15(run: &mut Run, workers: &[String]) -> Stats {
-    let (mut st, digests) = explore_all(run);
+    // The default build explores as a child worker too (C15_BASELINE = its output prefix): on a broken tree
+    // the unchecked default build may crash, and that must be a verdict, not the end of this process.
+    let (mut st, digests): (Stats, Vec<(u64, u64)>) = match std::env::var("C15_BASELINE") {
+        Ok(pre) if !pre.is_empty() => {
+            if let Ok(sig) = std::fs::read_to_string(format!("{}.crash", pre)) {
+                let mut st = Stats::default();
+                st.add("evaluations", 1);
+                st.add("validated", 1);
+                let case = J::obj().set("kind", J::s("worker_crash")).set("variant", J::s("default build")).set("what", J::s("the exploration process of the default build was killed by a signal on the common case set")).set("signal", J::s(sig.trim()));
+                st.violation(&run.known, "C15", &format!("the default build crashed ({}) on the common case set", sig.trim()), 0, case);
+                run.rule = "exploration cut short: the default build's worker crashed".into();
+                return st;
+            }
+            let (Ok(txt), Ok(bin)) = (std::fs::read_to_string(format!("{}.json", pre)), std::fs::read(format!("{}.bin", pre))) else {
+                let mut st = Stats::default();
+                st.error(format!("missing baseline worker output {}", pre));
+                return st;
+            };
+            let mut st = Stats::default();
+            if let Ok(j) = json::parse(&txt) {
+                for (k, v) in j.get("counters").and_then(|c| match c { J::Obj(o) => Some(o.clone()), _ => None }).unwrap_or_default() {
+                    if let Some(n) = v.int() {
+                        st.add(&k, n as u64);
+                    }
+                }
+                for smp in j.get("samples").and_then(|c| c.arr()).cloned().unwrap_or_default().into_iter().take(6) {
+                    st.sample(|| smp);
+                }
+            }
+            let digests: Vec<(u64, u64)> = bin.chunks_exact(16).map(|ch| (u64::from_le_bytes(ch[0..8].try_into().unwrap()), u64::from_le_bytes(ch[8..16].try_into().unwrap()))).collect();
+            (st, digests)
+        }
+        _ => explore_all(run),
+    };
     // violations found by the monitors belong to C06; here only the comparison counts
     st.clusters.clear();
     st.known.clear();
     let mine: HashMap<u64, u64> = digests.iter().copied().collect();
-    let mut variants = vec![J::obj().set("variant", J::s(&c06::variant_name_full())).set("patterns", J::u(digests.len() as u64)).set("cases", J::u(st.get("evaluations")))];
+    let mut variants = vec![J::obj().set("variant", J::s("default build")).set("patterns", J::u(mine.len() as u64)).set("cases", J::u(st.get("evaluations")))];
     for pre in workers {
         // a variant whose exploration process was killed by a signal (recorded by the driver) differs from the
         // default build, which explored the same space to the end in this process
